@@ -170,6 +170,10 @@ class BaseVersion(object):
         # contain a :.
         if m.group("epoch") is None and ":" in m.group("upstream_version"):
             raise ValueError("Invalid version string %r" % version)
+        # Likewise, without a revision the upstream version can not contain a "-"
+        # (what follows the last "-" was not a valid revision).
+        if m.group("debian_revision") is None and "-" in m.group("upstream_version"):
+            raise ValueError("Invalid version string %r" % version)
 
         # pylint: disable=attribute-defined-outside-init
         self.__full_version = version  # pylint: disable = unused-private-member
